@@ -22,6 +22,8 @@ pub trait AnsCombo {
     fn enc_batch(c: &mut AnsCoder<Self::W, Self::S>, b: u32, p: u32, form: u32, cdf: &[u128], syms: &[usize], err_at: Option<usize>) -> Option<String>;
     /// 0 = decode_symbols, 1 = try_decode_symbols (Err injected at err_at), 2 = decode_iid_symbols
     fn dec_batch(c: &mut AnsCoder<Self::W, Self::S>, b: u32, p: u32, form: u32, cdf: &[u128], n: usize, err_at: Option<usize>) -> Option<String>;
+    /// an `Iterator` adaptor method (`nth`, `skip`, `step_by`, …) applied to one of the lazy decode iterators
+    fn dec_iter(c: &mut AnsCoder<Self::W, Self::S>, b: u32, p: u32, form: u32, cdf: &[u128], amt: usize, k: usize) -> Option<String>;
 }
 
 fn enc_result<E>(r: Result<(), CoderError<constriction::DefaultEncoderFrontendError, E>>) -> String
@@ -158,6 +160,43 @@ where
     show_list(out)
 }
 
+fn dec_iter_impl<W, S, Pr, const P: usize>(c: &mut AnsCoder<W, S>, form: u32, cdf: &[u128], amt: usize, k: usize) -> String
+where
+    W: BitArray + Into<S> + AsPrimitive<Pr>,
+    S: BitArray + AsPrimitive<W>,
+    Pr: BitArray + Into<W>,
+{
+    let m = TableModel::<Pr, P>::new(cdf.to_vec());
+    fn sh<E>(r: Option<Result<usize, E>>) -> String {
+        match r {
+            None => "none".into(),
+            Some(Ok(s)) => hex(s as u128),
+            Some(Err(_)) => "err".into(),
+        }
+    }
+    match form {
+        0 => sh(c.decode_iid_symbols(amt, &m).nth(k)),
+        1 => sh(c.decode_iid_symbols(amt, &m).skip(k).next()),
+        2 => c.decode_iid_symbols(amt, &m).step_by(k + 1).map(|r| sh(Some(r))).collect::<Vec<_>>().join(","),
+        3 => sh(c.decode_symbols((0..amt).map(|_| &m)).nth(k)),
+        4 => sh(c.try_decode_symbols((0..amt).map(|_| Ok::<_, ()>(&m))).nth(k).map(|r| r.map_err(|_| ()))),
+        5 => {
+            let mut it = c.decode_iid_symbols(amt, &m);
+            let mut v = vec![sh(it.nth(k))];
+            v.extend(it.map(|r| sh(Some(r))));
+            v.join(",")
+        }
+        6 => {
+            let it = c.decode_iid_symbols(amt, &m);
+            let (lo, hi) = it.size_hint();
+            let len = it.len();
+            drop(it);
+            format!("hint {} {:?} len {}", lo, hi, len)
+        }
+        _ => "bad-op".into(),
+    }
+}
+
 macro_rules! impl_ans_combo {
     ($name:ident, $W:ty, $S:ty; $($B:ty => [$($P:literal),*]);*) => {
         impl AnsCombo for $name {
@@ -190,6 +229,12 @@ macro_rules! impl_ans_combo {
             fn dec_batch(c: &mut AnsCoder<$W, $S>, b: u32, p: u32, form: u32, cdf: &[u128], n: usize, err_at: Option<usize>) -> Option<String> {
                 match (b, p) {
                     $($( (bb, $P) if bb == <$B>::BITS => Some(dec_batch_impl::<$W, $S, $B, $P>(c, form, cdf, n, err_at)), )*)*
+                    _ => None,
+                }
+            }
+            fn dec_iter(c: &mut AnsCoder<$W, $S>, b: u32, p: u32, form: u32, cdf: &[u128], amt: usize, k: usize) -> Option<String> {
+                match (b, p) {
+                    $($( (bb, $P) if bb == <$B>::BITS => Some(dec_iter_impl::<$W, $S, $B, $P>(c, form, cdf, amt, k)), )*)*
                     _ => None,
                 }
             }
@@ -1197,6 +1242,41 @@ fn oracle_combo<C: AnsCombo>(rng: &mut Rng, w: u32, s: u32, bps: &[(u32, Vec<u32
                             break;
                         }
                     }
+                }
+            } else if r == 13 && rng.chance(1, 2) {
+                // the provided `Iterator` methods on the lazy decode iterators (`nth`, `skip`, `step_by`,
+                // `size_hint` / `len`) must pop exactly what the per-symbol loop pops and yield the same
+                // symbols — checked on clones, the history itself is not advanced
+                let amt = (rng.next() % 7) as usize;
+                let k = (rng.next() % 9) as usize;
+                let form = (rng.next() % 7) as u32;
+                let mut a = coder.clone();
+                let mut bref = coder.clone();
+                let list: Vec<String> = (0..amt).map(|_| C::dec(&mut bref, b, p, &cdf).unwrap()).collect();
+                let (want, consumed): (String, usize) = match form {
+                    0 | 1 | 3 | 4 => (list.get(k).cloned().unwrap_or("none".into()), (k + 1).min(amt)),
+                    2 => (list.iter().step_by(k + 1).cloned().collect::<Vec<_>>().join(","), amt),
+                    5 => {
+                        let mut v = vec![list.get(k).cloned().unwrap_or("none".into())];
+                        v.extend(list.iter().skip(k + 1).cloned());
+                        (v.join(","), amt)
+                    }
+                    _ => (format!("hint {} {:?} len {}", amt, Some(amt), amt), 0),
+                };
+                let mut c2 = coder.clone();
+                for _ in 0..consumed {
+                    let _ = C::dec(&mut c2, b, p, &cdf).unwrap();
+                }
+                let got = C::dec_iter(&mut a, b, p, form, &cdf, amt, k).unwrap();
+                rep.eval("C01");
+                rep.count("C01.decode_iterator_adaptors");
+                if got != want || (a.bulk().clone(), a.state()) != (c2.bulk().clone(), c2.state()) {
+                    let names = ["decode_iid_symbols(amt).nth(k)", "decode_iid_symbols(amt).skip(k).next()", "decode_iid_symbols(amt).step_by(k+1)", "decode_symbols(amt models).nth(k)", "try_decode_symbols(amt models).nth(k)", "decode_iid_symbols(amt): nth(k) then the rest", "decode_iid_symbols(amt): size_hint / len"];
+                    rep.fail("C01", format!("{} | {} with amt={:x} k={:x} model {:x} {:x} {} => yields {} and leaves bulk {:?} state {:x}; the per-symbol loop yields {} and leaves bulk {:?} state {:x} ({} symbols popped)",
+                        desc, names[form as usize], amt, k, b, p, show_list(cdf.clone()), got,
+                        a.bulk().iter().map(|&w| to_u128(w)).collect::<Vec<_>>(), to_u128(a.state()), want,
+                        c2.bulk().iter().map(|&w| to_u128(w)).collect::<Vec<_>>(), to_u128(c2.state()), consumed));
+                    break;
                 }
             } else if r == 12 && rng.chance(1, 2) {
                 // `clone()` and `clone_from()` (into a coder with unrelated bulk and state) are copies
